@@ -196,9 +196,19 @@ static void log_event(const char *what, const std::string &path, long long res, 
   Event e; e.seq = ++R.seq; e.task = tc ? tc->id : -1; e.op = tc ? tc->op : -1; e.what = what; e.path = path; e.res = res; e.err = err;
   R.ev.push_back(std::move(e));
 }
-static std::string normp(const std::string &p) {     // collapse repeated slashes
-  std::string n; for (char ch : p) { if (ch == '/' && !n.empty() && n.back() == '/') continue; n += ch; }
-  if (n.size() > 1 && n.back() == '/') n.pop_back();
+static std::string g_cwd;            // working directory of the run (plans may use relative names)
+static std::string normp(const std::string &q) {     // absolute, repeated slashes and "." segments removed
+  std::string p = q;
+  if (!p.empty() && p[0] != '/' && !g_cwd.empty()) p = g_cwd + "/" + p;
+  std::string n; size_t i = 0;
+  while (i < p.size()) {
+    size_t j = p.find('/', i); if (j == std::string::npos) j = p.size();
+    std::string seg = p.substr(i, j - i);
+    if (!seg.empty() && seg != ".") { n += '/'; n += seg; }
+    i = j + 1;
+  }
+  if (n.empty()) n = "/";
+  if (!q.empty() && q[0] != '/' && g_cwd.empty()) return n.substr(1);
   return n;
 }
 static Fault *find_fault(const char *kind, const char *path) {
@@ -453,10 +463,7 @@ static bool the_callback(const char *filename, const void *data) {
   std::string fn = filename ? filename : "";
   if (m) {
     if (m->reject_paths.count(fn)) accept = false;
-    if (!m->reject_norm.empty()) {     // compare with multiple slashes collapsed
-      std::string nf; for (char ch : fn) { if (ch == '/' && !nf.empty() && nf.back() == '/') continue; nf += ch; }
-      if (m->reject_norm.count(nf)) accept = false;
-    }
+    if (!m->reject_norm.empty() && m->reject_norm.count(normp(fn))) accept = false;   // compared as normalised absolute paths
     if (m->reject_idx.count(idx)) accept = false;
     size_t sl = fn.rfind('/');
     if (m->reject_base.count(sl == std::string::npos ? fn : fn.substr(sl + 1))) accept = false;
@@ -470,7 +477,7 @@ static void cb_setup(const json &op, CbCtx &c) {
   if (it == op.end() || it->is_null()) return;
   if (it->contains("reject_paths")) for (auto &p : (*it)["reject_paths"]) c.reject_paths.insert(subst_in(u2b(p.get<std::string>())));
   if (it->contains("reject_idx")) for (auto &p : (*it)["reject_idx"]) c.reject_idx.insert(p.get<long long>());
-  if (it->contains("reject_norm")) for (auto &p : (*it)["reject_norm"]) c.reject_norm.insert(subst_in(u2b(p.get<std::string>())));
+  if (it->contains("reject_norm")) for (auto &p : (*it)["reject_norm"]) c.reject_norm.insert(normp(subst_in(u2b(p.get<std::string>()))));
   if (it->contains("reject_base")) for (auto &p : (*it)["reject_base"]) c.reject_base.insert(u2b(p.get<std::string>()));
 }
 
@@ -982,6 +989,8 @@ static json run_plan(const json &plan) {
   json terr = json::array();
   if (plan.contains("tree")) for (auto &e : plan["tree"]) { json r = tree_entry(e); if (!r.empty()) { r["p"] = e.value("p", ""); terr.push_back(r); } }
   if (!terr.empty()) out["tree_errors"] = terr;
+  g_cwd.clear();
+  if (cfg.contains("cwd")) { g_cwd = subst_in(cfg["cwd"].get<std::string>()); mkdirs(g_cwd); if (chdir(g_cwd.c_str())) g_cwd.clear(); }
   sim_steps = 0;
   sim_step_budget = cfg.value("step_budget", (uint64_t)400000000ull);
   // ---- tasks
@@ -1050,6 +1059,7 @@ static json run_plan(const json &plan) {
     for (auto &f : R.files) __real_fclose(f.first);
     R.files.clear();
   }
+  if (!g_cwd.empty()) { if (chdir("/")) {} g_cwd.clear(); }
   if (!cfg.value("keep_tree", false)) clear_sandbox();
   g_plan_no++;
   return out;
